@@ -297,6 +297,8 @@ def atofDec (s0 : Bytes) : Dec :=
 inductive RCell where
   | str (s : Bytes)
   | num (d : Dec)
+  /-- an `int` cell: only produced by a column read as `i` (`readAs`) -/
+  | int (v : Int)
 deriving Repr, DecidableEq
 
 /-- type inference of `nextRow` without `readAs`:
@@ -326,6 +328,57 @@ structure Table where
 def readTable (text : Bytes) : Table :=
   let h := readHeader text
   { columns := h.columns, rows := readRows h.sep h.dec (text.length + 2) h.file false }
+
+/-! ## `readAs(types)`: typed columns -/
+
+/-- a character of the `readAs` string: `n` (`myatof`), `s` (the text), `i` (`myatoi`); any other character but `h`
+    matches no `case` of the switch, the cell is **not appended** to the row (`skip`).  `h` (`strtoul(…, 16)`, libc)
+    is not modelled: the driver rejects it and the generator never produces it. -/
+inductive ColType where
+  | num | str | int | skip
+deriving Repr, DecidableEq
+
+/-- `while (c = *s++, c >= '0' && c <= '9') y = 10 * y + unsigned(c - '0');` with `unsigned y` -/
+def atoiDigits : Bytes → Nat → Nat
+  | [], y => y
+  | c :: t, y => if isDigit c then atoiDigits t ((10 * y + (c.toNat - 48)) % 4294967296) else y
+
+/-- `myatoi`: optional sign, digits accumulated in an `unsigned`, `int(0u - y)` / `int(y)` -/
+def atoi32 (s : Bytes) : Int :=
+  let r : Bool × Bytes := match s with
+    | 45 :: t => (true, t)
+    | 43 :: t => (false, t)
+    | t => (false, t)
+  let y := atoiDigits r.2 0
+  let u := if r.1 then (4294967296 - y) % 4294967296 else y
+  if u < 2147483648 then (u : Int) else (u : Int) - 4294967296
+
+/-- one cell of a column that has a type character -/
+def typedCell (dec : UInt8) : ColType → Bytes → Option RCell
+  | .num, v => some (.num (atofDec (if dec != 46 then v.map (fun c => if c = dec then 46 else c) else v)))
+  | .str, v => some (.str v)
+  | .int, v => some (.int (atoi32 v))
+  | .skip, _ => none
+
+/-- the `foreach2(int i, String& v, row)` loop of `nextRow`: `if (ntypes > i) switch (_types[i]) … else` inference -/
+def typedRow (dec : UInt8) : List ColType → List Bytes → List RCell
+  | _, [] => []
+  | [], v :: vs => inferCell dec v :: typedRow dec [] vs
+  | t :: ts, v :: vs => (typedCell dec t v).toList ++ typedRow dec ts vs
+
+def readRowsT (types : List ColType) (sep dec : UInt8) : Nat → RFile → Bool → List (List RCell)
+  | 0, _, _ => []
+  | fuel + 1, f, started =>
+    if f.eof then [] else
+    let r := readLineB f
+    if !r.2.2 then [] else
+    let line := if !started then eatBom r.1 else r.1
+    typedRow dec types (parseRow sep line) :: readRowsT types sep dec fuel r.2.1 true
+
+/-- a fresh `TabularDataFile(path)`, `readAs(types)`, `data()` then `columns()` -/
+def readTableT (types : List ColType) (text : Bytes) : Table :=
+  let h := readHeader text
+  { columns := h.columns, rows := readRowsT types h.sep h.dec (text.length + 2) h.file false }
 
 /-! ## `printf("%.15g")` of an exact decimal -/
 
